@@ -55,6 +55,9 @@ pub fn enc_dt(dt: &DataType, out: &mut Vec<i64>) {
         DataType::Decimal64(p, s) => { out.push(34); out.push(*p as i64); out.push(*s as i64); }
         DataType::Duration(u) => { out.push(35); out.push(unit_code(u)); }
         DataType::Date64 => out.push(30),
+        DataType::ListView(f) => { out.push(36); enc_field(f, out); }
+        DataType::LargeListView(f) => { out.push(37); enc_field(f, out); }
+        DataType::RunEndEncoded(re, v) => { out.push(38); enc_dt(re.data_type(), out); enc_dt(v.data_type(), out); }
         _ => out.push(999),
     }
 }
@@ -93,6 +96,9 @@ pub fn dec_dt(t: &[i64], p: &mut usize) -> DataType {
         33 => { let pr = next(); let s = next(); DataType::Decimal32(pr as u8, s as i8) }
         34 => { let pr = next(); let s = next(); DataType::Decimal64(pr as u8, s as i8) }
         35 => DataType::Duration(unit_of(next())),
+        36 => DataType::ListView(Arc::new(dec_field(t, p))),
+        37 => DataType::LargeListView(Arc::new(dec_field(t, p))),
+        38 => { let k = dec_dt(t, p); let v = dec_dt(t, p); DataType::RunEndEncoded(Arc::new(Field::new("run_ends", k, false)), Arc::new(Field::new("values", v, true))) }
         _ => panic!("bad type code"),
     }
 }
@@ -106,6 +112,23 @@ pub fn dec_schema(t: &[i64]) -> Schema {
     let mut p = 1;
     let fs: Vec<Field> = (0..t[0]).map(|_| dec_field(t, &mut p)).collect();
     Schema::new(fs)
+}
+
+/// the type a written column is documented to come back as: run-end encoded columns return their value type
+pub fn read_back_field(f: &Field) -> Field {
+    Field::new(f.name(), read_back_type(f.data_type()), f.is_nullable())
+}
+pub fn read_back_type(dt: &DataType) -> DataType {
+    let fr = |f: &FieldRef| Arc::new(read_back_field(f));
+    match dt {
+        DataType::RunEndEncoded(_, v) => read_back_type(v.data_type()),
+        DataType::Struct(fs) => DataType::Struct(Fields::from(fs.iter().map(|f| read_back_field(f)).collect::<Vec<_>>())),
+        DataType::List(f) => DataType::List(fr(f)), DataType::LargeList(f) => DataType::LargeList(fr(f)),
+        DataType::ListView(f) => DataType::ListView(fr(f)), DataType::LargeListView(f) => DataType::LargeListView(fr(f)),
+        DataType::FixedSizeList(f, n) => DataType::FixedSizeList(fr(f), *n),
+        DataType::Map(f, s) => DataType::Map(fr(f), *s),
+        d => d.clone(),
+    }
 }
 
 // ------------------------------------------------------------------------------------------ logical values
@@ -130,7 +153,7 @@ pub fn enc_val(dt: &DataType, v: &Val, out: &mut Vec<BigInt>) {
         Val::List(l) => {
             out.push(1.into());
             let child = match dt {
-                DataType::List(f) | DataType::LargeList(f) | DataType::Map(f, _) => { out.push(l.len().into()); f }
+                DataType::List(f) | DataType::LargeList(f) | DataType::Map(f, _) | DataType::ListView(f) | DataType::LargeListView(f) => { out.push(l.len().into()); f }
                 DataType::FixedSizeList(f, _) => f,
                 _ => panic!("list value for non-list type"),
             };
@@ -149,9 +172,10 @@ pub fn parse_val(dt: &DataType, t: &[BigInt], p: &mut usize) -> Val {
     let us = |x: &BigInt| usize::try_from(x).expect("usize");
     match dt {
         DataType::Dictionary(_, v) => { *p -= 1; parse_val(v, t, p) }
+        DataType::RunEndEncoded(_, v) => { *p -= 1; parse_val(v.data_type(), t, p) }
         d if is_var_bytes(d) => { let n = us(&t[*p]); *p += 1; let b = t[*p..*p + n].iter().map(|x| u8::try_from(x).unwrap()).collect(); *p += n; Val::Bytes(b) }
         DataType::FixedSizeBinary(n) => { let n = *n as usize; let b = t[*p..*p + n].iter().map(|x| u8::try_from(x).unwrap()).collect(); *p += n; Val::Bytes(b) }
-        DataType::List(f) | DataType::LargeList(f) | DataType::Map(f, _) => {
+        DataType::List(f) | DataType::LargeList(f) | DataType::Map(f, _) | DataType::ListView(f) | DataType::LargeListView(f) => {
             let n = us(&t[*p]); *p += 1;
             Val::List((0..n).map(|_| parse_val(f.data_type(), t, p)).collect())
         }
@@ -232,7 +256,10 @@ pub fn gen_val(dt: &DataType, nullable: bool, r: &mut Rng, null_pct: u32) -> Val
             if is_stringy(v) { Val::Bytes(r.pick(&["", "a", "bb", "漢字", "a-rather-long-dictionary-value-over-12", "x"]).as_bytes().to_vec()) } else { gen_val(v, false, r, 0) }
         }
         DataType::Struct(fs) => Val::Struct(fs.iter().map(|f| gen_val(f.data_type(), f.is_nullable(), r, null_pct)).collect()),
-        DataType::List(f) | DataType::LargeList(f) => {
+        DataType::RunEndEncoded(_, v) => { // long runs of equal values are what the type is for
+            gen_val(v.data_type(), false, r, 0)
+        }
+        DataType::List(f) | DataType::LargeList(f) | DataType::ListView(f) | DataType::LargeListView(f) => {
             let n = match r.below(6) { 0 | 1 => 0, 2 => 1, 3 => 2, 4 => 3 + r.below(4), _ => if r.chance(1, 10) { 20 + r.below(60) } else { r.below(4) } };
             Val::List((0..n).map(|_| gen_val(f.data_type(), f.is_nullable(), r, null_pct)).collect())
         }
@@ -271,6 +298,15 @@ fn offsets_and_data(vals: &[&Val], r: &mut Rng) -> (Vec<usize>, Vec<u8>) {
         offs.push(data.len());
     }
     (offs, data)
+}
+
+thread_local! {
+    /// KNOWN-FINDING candidate: with content-defined chunking, ArrayLevels::slice_for_chunk (levels.rs:1192-1202) assumes
+    /// that a leaf's non_null_indices are ascending (start = first, end = last + 1, idx - start); a ListView /
+    /// LargeListView whose views are not laid out in ascending order breaks that: "attempt to subtract with
+    /// overflow" (levels.rs:1200) or an index out of bounds in write_gather (column/writer/encoder.rs:287).
+    /// While CDC is on, list views are therefore built with ascending offsets (set per case from the config).
+    pub static LISTVIEW_ASCENDING: std::cell::Cell<bool> = const { std::cell::Cell::new(false) };
 }
 
 /// Build an array of type `dt` holding `vals`, choosing the physical layout (validity buffer present or not,
@@ -421,6 +457,41 @@ pub fn build_array(dt: &DataType, vals: &[&Val], r: &mut Rng) -> ArrayRef {
                 _ => unreachable!(),
             }
         }
+        DataType::ListView(f) | DataType::LargeListView(f) => {
+            // views: segments laid out in a random order, identical sub-lists may share a range, gaps between segments
+            let nulls = nulls_of(vals, r);
+            let mut order: Vec<usize> = (0..vals.len()).collect();
+            if !LISTVIEW_ASCENDING.with(|c| c.get()) { for i in (1..order.len()).rev() { let j = r.below(i + 1); order.swap(i, j); } }
+            let mut child: Vec<Val> = Vec::new();
+            let mut offs = vec![0usize; vals.len()]; let mut sizes = vec![0usize; vals.len()];
+            for &row in &order {
+                if r.chance(1, 6) { child.push(gen_val(f.data_type(), f.is_nullable(), r, 30)); }   // gap
+                match vals[row] {
+                    Val::List(l) => { offs[row] = child.len(); sizes[row] = l.len(); child.extend(l.iter().cloned()); }
+                    _ => { // null slot: a (possibly non-empty) range of whatever is there
+                        let sz = if child.is_empty() { 0 } else { r.below(child.len().min(3) + 1) };
+                        offs[row] = child.len() - sz; sizes[row] = sz;
+                    }
+                }
+            }
+            let cv: Vec<&Val> = child.iter().collect();
+            let values = build_array(f.data_type(), &cv, r);
+            match dt {
+                DataType::ListView(_) => Arc::new(ListViewArray::new(f.clone(), ScalarBuffer::from(offs.iter().map(|o| *o as i32).collect::<Vec<_>>()), ScalarBuffer::from(sizes.iter().map(|o| *o as i32).collect::<Vec<_>>()), values, nulls)),
+                _ => Arc::new(LargeListViewArray::new(f.clone(), ScalarBuffer::from(offs.iter().map(|o| *o as i64).collect::<Vec<_>>()), ScalarBuffer::from(sizes.iter().map(|o| *o as i64).collect::<Vec<_>>()), values, nulls)),
+            }
+        }
+        DataType::RunEndEncoded(_, vf) => {
+            // runs: maximal runs of equal logical values, sometimes split further
+            let mut ends: Vec<i32> = Vec::new(); let mut rv: Vec<&Val> = Vec::new();
+            let key = |v: &Val| { let mut e = Vec::new(); enc_val(vf.data_type(), v, &mut e); e };
+            for (i, v) in vals.iter().enumerate() {
+                let same = i > 0 && key(v) == key(vals[i - 1]) && !r.chance(1, 10);
+                if same { *ends.last_mut().unwrap() = (i + 1) as i32; } else { ends.push((i + 1) as i32); rv.push(v); }
+            }
+            let values = build_array(vf.data_type(), &rv, r);
+            Arc::new(RunArray::<Int32Type>::try_new(&Int32Array::from(ends), values.as_ref()).expect("run array"))
+        }
         DataType::FixedSizeList(f, n) => {
             let nulls = nulls_of(vals, r);
             let mut child: Vec<Val> = Vec::new();
@@ -483,6 +554,9 @@ pub fn enc_row(arr: &dyn Array, i: usize, out: &mut Vec<BigInt>) {
         DataType::List(_) => { let l = arr.as_list::<i32>().value(i); out.push(1.into()); out.push(l.len().into()); for j in 0..l.len() { enc_row(l.as_ref(), j, out); } }
         DataType::LargeList(_) => { let l = arr.as_list::<i64>().value(i); out.push(1.into()); out.push(l.len().into()); for j in 0..l.len() { enc_row(l.as_ref(), j, out); } }
         DataType::Map(_, _) => { let l = arr.as_map().value(i); out.push(1.into()); out.push(l.len().into()); for j in 0..l.len() { enc_row(&l, j, out); } }
+        DataType::ListView(_) => { let l = arr.as_list_view::<i32>().value(i); out.push(1.into()); out.push(l.len().into()); for j in 0..l.len() { enc_row(l.as_ref(), j, out); } }
+        DataType::LargeListView(_) => { let l = arr.as_list_view::<i64>().value(i); out.push(1.into()); out.push(l.len().into()); for j in 0..l.len() { enc_row(l.as_ref(), j, out); } }
+        DataType::RunEndEncoded(_, _) => { let ra = arr.as_run::<Int32Type>(); let k = ra.get_physical_index(i); enc_row(ra.values().as_ref(), k, out); }
         DataType::FixedSizeList(_, _) => { let l = arr.as_fixed_size_list().value(i); out.push(1.into()); for j in 0..l.len() { enc_row(l.as_ref(), j, out); } }
         _ => out.push(BigInt::from(-999)),
     }
